@@ -223,6 +223,7 @@ def report_fails(rep, fails, replay, limit_per_sig=2, job_runner=None, job_repla
         f = dict(f)
         msg = f.pop('message')
         job = f.pop('job', None)
+        wjob = f.pop('wjob', None)
         key = repr(sorted(f.get('sig', {}).items()))
         per_sig[key] = per_sig.get(key, 0) + 1
         if per_sig[key] > limit_per_sig:
@@ -252,7 +253,69 @@ def report_fails(rep, fails, replay, limit_per_sig=2, job_runner=None, job_repla
                 rep.violation(case, msg + extra + ' [fails only after the preceding cases of its exploration job, not in '
                               'isolation: the answer depends on earlier calls in the same process]')
                 continue
+        # this (parent) process has itself replayed other cases and imported / primed things: the decisive re-executions run
+        # in a brand-new interpreter - (1) the case alone, (2) the sweep job it came from, (3) the whole worker job
+        from .pool import replay_in_new_interpreter
+        from .report import jsonable
+        plain = jsonable(f)
+        if replay_in_new_interpreter(rep.pid, plain):
+            rep.violation(f, msg + extra + ' [reproduced in a new interpreter; not in the process that ran the exploration, whose '
+                          'library state had been touched by other cases]')
+            continue
+        done = False
+        for kind, spec in (('job', job), ('wjob', wjob)):
+            if spec is None:
+                continue
+            case = {'kind': kind, kind: jsonable(spec), 'inner': plain, 'sig': dict(f.get('sig', {}), history_dependent=True)}
+            if replay_in_new_interpreter(rep.pid, case):
+                rep.violation(case, msg + extra + ' [fails only after the cases that ran before it in its exploration job (re-run as '
+                              'a whole in a new interpreter), not in isolation: the answer depends on earlier calls in the process]')
+                done = True
+                break
+        if done:
+            continue
         raise SystemExit(f'INTERNAL: violation did not reproduce on re-execution: {msg}')
+
+
+def pmap_w(worker_name, fn, jobs, fresh=True):
+    """pmap over complete worker jobs, each in a freshly forked process (so that the job IS the process history of whatever it
+    reports), with every failure dict in the results tagged with (worker name, job) for the whole-job replay"""
+    from .pool import pmap
+    jobs = list(jobs)
+    results = pmap(fn, jobs, fresh=fresh)
+    for job, res in zip(jobs, results):
+        for part in (res if isinstance(res, tuple) else (res,)):
+            if isinstance(part, list) and part and all(isinstance(x, dict) and 'message' in x for x in part):
+                tag_wjob(part, worker_name, job)
+    return results
+
+
+def tag_wjob(fails, worker_name, job):
+    """annotate the failures a worker returned with the worker's name and its complete job (the process history)"""
+    for f in fails:
+        if isinstance(f, dict):
+            f.setdefault('wjob', [worker_name, job])
+    return fails
+
+
+def replay_wjob(mod, case):
+    """re-run one complete worker job (in this - new - interpreter) and look for the inner case among its failures"""
+    from .desc import tup
+    name, job = case['wjob']
+    res = mod.WORKERS[name](tup(job))
+    found = []
+    for part in (res if isinstance(res, tuple) else (res,)):
+        if isinstance(part, list) and part and all(isinstance(x, dict) and 'message' in x for x in part):
+            found.extend(part)
+    inner = case['inner']
+    for g in found:
+        if same_case(inner, g):
+            return g['message']
+    strip = lambda sg: {k: v for k, v in (sg or {}).items() if k != 'history_dependent'}  # noqa: E731
+    for g in found:
+        if strip(g.get('sig')) == strip(inner.get('sig')):
+            return g['message']
+    return None
 
 
 def make_worker(judge, state_law=None, uses_held=None):
